@@ -63,10 +63,19 @@ def rand_case(rng):
     obj = dict(kind=method, location=loc, table_seed=seed, boost=rng.choice([1, 1, 2]))
     if method == "rca":
         obj["orig_table_seed"] = oseed
+    first = None
+    if rng.random() < 0.3:
+        # the user built another codon specification on the same table object(s) before
+        other = "rca" if method != "rca" else "cai"
+        first = dict(kind=other, location=loc, table_seed=seed if rng.random() < 0.7 else oseed, boost=1)
+        if other == "rca":
+            first["orig_table_seed"] = rng.choice([seed, oseed])
     desc = dict(sequence=seq, constraints=[dict(kind="cds", location=loc, table=rng.choice(["Standard", "Bacterial"]),
                                                 start_codon=None, translation=None)],
                 objectives=[obj], settings={},   # default solver settings: the property does not quantify over degraded searches
                 np_seed=rng.randint(0, 10 ** 6), protein=protein, targeted=targeted)
+    if first is not None:
+        desc["construct_first"] = [first]
     return desc
 
 
